@@ -6,7 +6,7 @@ from __future__ import annotations
 from checks.sctp_common import base_problems, drain_verdict, session_classes
 from vlib.runner import Check, Family, Outcome
 from vlib.sctpsim import Session
-from vlib.strategies import rto_window_case, session_case, yielding
+from vlib.strategies import bundling, rto_window_case, session_case, yielding
 
 
 def run_session(case: dict) -> Outcome:
@@ -62,6 +62,9 @@ CHECK = Check(
         Family("yielding-send", run_session,
                lambda tier: yielding(session_case(tier, reliable_only=True, max_sends=30 if tier == "quick" else 60, loss_bias=True, burst_bias=True, warmup=True)),
                quick=2000, thorough=40000, min_shard=20),
+        Family("bundling", run_session,
+               lambda tier: bundling(session_case(tier, reliable_only=True, max_sends=30 if tier == "quick" else 60, loss_bias=True, burst_bias=True, warmup=True)),
+               quick=1500, thorough=40000, min_shard=20),
     ],
     floor=200,
     assumptions=["liveness is decided as bounded liveness under the virtual clock (horizon 900 s after healing)",
